@@ -148,7 +148,7 @@ def route_worker(rt):
                 decide('a fresh session carries more than the factor just verified', lvl != z3.BitVecVal(factor, 64), f'{rt["path"]}/level')
         H.ex.on_mint = on_mint
     try:
-        H, paths, path = sweep.run_route(ir, rt, budget_s=240, extra=extra, max_paths=80000)
+        H, paths, path = sweep.run_route(ir, rt, budget_s=600, extra=extra, max_paths=80000)
     except Unsupported as e:
         out['inconclusive'] = str(e); return out
     if paths is None: out['inconclusive'] = 'no handler body'; return out
